@@ -116,6 +116,32 @@ def make_symlinks(c):
         os.symlink(real if variant == "last" else os.path.join("linked", f + ".src"), os.path.join(c["dir"], f))
 
 
+def case_env(mage, case, extra=None):
+    """the environment of every command of a case: the framework's, except what a build-constraint variant
+    case is about (CGO_ENABLED unset / 1, an extra tag through GOFLAGS)"""
+    e = mage.env(extra)
+    v = (case.get("pkg") or {}).get("variant")
+    if v:
+        if v["envmode"] == "cgo-unset":
+            e.pop("CGO_ENABLED", None)
+        elif v["envmode"] == "cgo-1":
+            e["CGO_ENABLED"] = "1"
+        if v["tag"] == "custom":
+            e["GOFLAGS"] = e.get("GOFLAGS", "") + " -tags=custom"
+    return e
+
+
+def run_case(mage, case, args, extra=None, exe=None, timeout=180):
+    import subprocess
+    try:
+        p = subprocess.run([exe or mage.bin] + list(args), cwd=case["dir"], env=case_env(mage, case, extra), input=b"", timeout=timeout,
+                           stdout=subprocess.PIPE, stderr=subprocess.PIPE)
+        rc, out, err = p.returncode, p.stdout, p.stderr
+    except subprocess.TimeoutExpired as ex:
+        rc, out, err = 124, ex.stdout or b"", (ex.stderr or b"") + b"\n[timeout]"
+    return {"rc": rc, "out": out.decode("utf-8", "replace"), "err": err.decode("utf-8", "replace")}
+
+
 def observe(mage, case):
     """everything that is run for one package"""
     d = case["dir"]
@@ -124,11 +150,11 @@ def observe(mage, case):
     with open(stub, "w") as f:
         f.write(STUB)
     # compiles (type-checks) the package without linking; exit status 1 on any compile error
-    rc, out, err = sh(["go", "list", "-tags", "mage", "-export", "-f", "{{.Export}}", "."], cwd=case["src"], env=goenv(), timeout=300)
+    rc, out, err = sh(["go", "list", "-tags", "mage", "-export", "-f", "{{.Export}}", "."], cwd=case["src"], env=case_env(mage, case), timeout=300)
     os.remove(stub)
     ob["alone_ok"] = rc == 0
     ob["alone_err"] = err[-600:]
-    r = mage.run(d, ["-l"], env=HASHFAST)
+    r = run_case(mage, case, ["-l"], HASHFAST)
     ob["list_rc"], ob["list_out"], ob["list_err"] = r["rc"], r["out"], r["err"][-1500:]
     ob["listing"] = parse_listing(r["out"]) if r["rc"] == 0 else None
     ob["helps"] = {}
@@ -142,7 +168,7 @@ def observe(mage, case):
     listed = [n.rstrip("*") for n, _ in ob["listing"][1]]
     go_names(case["docview"], listed)
     for n in listed:
-        h = mage.run(d, ["-h", n], env=HASHFAST)
+        h = run_case(mage, case, ["-h", n], HASHFAST)
         ob["helps"][n] = {"rc": h["rc"], "out": h["out"], "err": h["err"][-300:], "parsed": parse_help(h["out"]) if h["rc"] == 0 else None}
     # one run of every valid target the listing shows, by its listed spelling
     bylow = {G.go_lower(n): n for n in listed}
@@ -154,43 +180,43 @@ def observe(mage, case):
         words += [n] + ws
         plan.append((did, expect))
     if words:
-        rr = mage.run(d, words, env=HASHFAST)
+        rr = run_case(mage, case, words, HASHFAST)
         ob["run"] = {"words": words, "plan": plan, "rc": rr["rc"], "calls": calls(rr["out"]), "err": rr["err"][-600:]}
     # every listed name as the FIRST word of a command line of its own (the front end looks at that word)
     singles = [(bylow[G.go_lower(key)], ws, expect, did) for key, ws, expect, did in case["runs"] if G.go_lower(key) in bylow]
     for n, ws, expect, did in singles:
-        rr = mage.run(d, [n] + ws, env=HASHFAST)
+        rr = run_case(mage, case, [n] + ws, HASHFAST)
         ob["single_runs"].append({"route": "mage", "words": [n] + ws, "want": [did, [list(x) for x in expect]], "rc": rr["rc"],
                                   "calls": [[c0, [list(x) for x in a]] for c0, a in calls(rr["out"])], "out": rr["out"][:200], "err": rr["err"][-200:]})
     if case.get("compile"):
         # the same through a -compile'd binary: listing, help and one run per name
         exe = os.path.join(d, "compiled_magefile_bin")
-        cr = mage.compile(d, exe)
+        cr = run_case(mage, case, ["-compile", exe])
         comp = {"rc": cr["rc"], "err": cr["err"][-400:], "listing": None, "helps": {}}
         if cr["rc"] == 0:
-            lr = mage.run(d, ["-l"], exe=exe)
+            lr = run_case(mage, case, ["-l"], exe=exe)
             comp["listing"] = parse_listing(lr["out"]) if lr["rc"] == 0 else None
             for n, ws, expect, did in singles:
-                hr = mage.run(d, ["-h", n], exe=exe)
+                hr = run_case(mage, case, ["-h", n], exe=exe)
                 comp["helps"][n] = {"rc": hr["rc"], "parsed": parse_help(hr["out"]) if hr["rc"] == 0 else None, "out": hr["out"][:200]}
-                rr = mage.run(d, [n] + ws, exe=exe)
+                rr = run_case(mage, case, [n] + ws, exe=exe)
                 ob["single_runs"].append({"route": "compiled", "words": [n] + ws, "want": [did, [list(x) for x in expect]], "rc": rr["rc"],
                                           "calls": [[c0, [list(x) for x in a]] for c0, a in calls(rr["out"])], "out": rr["out"][:200], "err": rr["err"][-200:]})
         ob["compiled"] = comp
     # every alias declared for a target, typed as the first word, runs THAT target
     ob["alias_runs"] = []
     for a, ws, expect, did in case["alias_runs"]:
-        rr = mage.run(d, [a] + ws, env=HASHFAST)
+        rr = run_case(mage, case, [a] + ws, HASHFAST)
         ob["alias_runs"].append({"alias": a, "words": [a] + ws, "want": [did, [list(x) for x in expect]], "rc": rr["rc"],
                                  "calls": [[c0, [list(x) for x in a2]] for c0, a2 in calls(rr["out"])], "err": rr["err"][-200:]})
     if case["fail_run"]:
         key, ws, did = case["fail_run"]
         n = bylow.get(G.go_lower(key))
         if n is not None:
-            rr = mage.run(d, [n] + ws, env=dict(HASHFAST, VERIF_FAIL=did + ":error"))
+            rr = run_case(mage, case, [n] + ws, dict(HASHFAST, VERIF_FAIL=did + ":error"))
             ob["fail_run"] = {"words": [n] + ws, "rc": rr["rc"], "calls": [c[0] for c in calls(rr["out"])], "err": rr["err"][-300:]}
     if case["default_noargs"]:
-        rr = mage.run(d, [], env=HASHFAST)
+        rr = run_case(mage, case, [], HASHFAST)
         ob["default_run"] = {"rc": rr["rc"], "calls": calls(rr["out"]), "err": rr["err"][-300:]}
     return ob
 
@@ -316,7 +342,7 @@ def coq_case(case, ob, dv):
             helps.append("{| ho_key := %s; ho_comment := \"<-h failed>\"; ho_args := []; ho_aliases := [] |}" % coq_str(n))
     cs = []
     for did, args in (ob["run"]["calls"] if ob["run"] else []):
-        recv, _, name = did.rpartition(".")
+        recv, _, name = did.split("@")[-1].rpartition(".")
         cs.append("{| co_recv := %s; co_name := %s; co_types := %s |}" % (coq_str(recv), coq_str(name), coq_list([ATY.get(t, "AString") for t, _ in args])))
     o = ("{| o_docfuncs := %s; o_doctypes := %s; o_docvars := %s; o_ok := %s; o_desc := %s; o_listing := %s; o_helps := %s; o_calls := %s |}" % (
         coq_list([coq_str(f["name"]) for f in dv["funcs"]]),
@@ -395,6 +421,8 @@ def run(ctx):
             cases.append({"stream": "names", "pkg": G.gen_named(rng, ["Build", "Test"], [], helper_names=lows[i:i + 45])})
         for _ in range(5 * k):
             cases.append({"stream": "mage-import", "pkg": G.gen_with_imports(rng)})
+        for tag, where, envmode in G.variant_plan(rng, sh(["go", "env", "GOVERSION"], env=goenv())[1].strip()) * k:
+            cases.append({"stream": "variants:%s:%s:%s" % (tag, where, envmode), "compile": True, "pkg": G.gen_variants(rng, tag, where, envmode)})
         for v in ["first", "last", "all"] * k:
             cases.append({"stream": "symlink:" + v, "pkg": G.gen_package(rng, nfiles=rng.choice([2, 3]), unicode=False, cli=False)})
         for c in cases[:6]:
@@ -408,7 +436,9 @@ def run(ctx):
     for c in cases:
         pkg = c["pkg"]
         pname = "p%04d" % (mage.n + 1)
+        G.variant_reset(pkg)
         files = G.render_package(pkg, pname)
+        files.update(G.variant_files(pkg, pname))
         if c["stream"].startswith("magefiles-dir"):
             # the magefiles live in ./magefiles next to files the go tool EXCLUDES from the package on this
             # platform: their exported functions are not part of the magefile package
@@ -431,6 +461,17 @@ def run(ctx):
         if c["stream"].startswith("symlink:"):
             make_symlinks(c)
         c["files"] = sorted(f for f in os.listdir(c["src"]) if f.startswith("mf_"))
+        if pkg.get("variant"):
+            # the go tool's own view (under the environment of the case) decides which variant file belongs to the package
+            v = pkg["variant"]
+            rel = "." if v["where"] == "own" else "./imp/varlib"
+            rc, out, err = sh(["go", "list", "-tags", "mage,custom" if v["tag"] == "custom" else "mage", "-f", "{{range .GoFiles}}{{.}} {{end}}", rel], cwd=c["dir"], env=case_env(mage, c), timeout=300)
+            chosen = [w for w in ("on", "off") if ("var_%s.go" % w) in out.split()]
+            if rc != 0 or len(chosen) != 1:
+                raise BuildError("go list does not select exactly one variant file: %r %s" % (out, err[-300:]))
+            G.variant_select(pkg, chosen[0])
+            if v["where"] == "own":
+                c["files"].append("var_%s.go" % chosen[0])
         c["runs"] = plan_runs(rng, pkg)
         c["alias_runs"] = []
         for f in G.oracle_funcs(pkg):
